@@ -40,55 +40,7 @@ def _eval_kind_guard(test, kind, subject_pred):
 def r_C03fgh(root):
     out = []; inst = 0
     t = load(root, M)
-    # ---------------- C03.f
-    pn = find(t, "parse_tree_to_objgraph.process_node"); fi = sem.info(pn)
-    branch = None
-    for n in own_nodes(pn):
-        if isinstance(n, ast.If) and "RULE_ABSTRACT" in ast.unparse(n.test) and "_tx_type" in ast.unparse(n.test): branch = n; break
-    if branch is None: raise AnalysisError("abstract-rule branch of process_node not found")
-    loops = [n for n in ast.walk(branch) if isinstance(n, (ast.For, ast.GeneratorExp, ast.ListComp)) and n in list(ast.walk(ast.Module(body=branch.body, type_ignores=[])))]
-    sel = None
-    for n in ast.walk(ast.Module(body=branch.body, type_ignores=[])):
-        if isinstance(n, ast.For):
-            rets = [r for r in ast.walk(n) if isinstance(r, ast.Return) and r.value is not None and any(callee_name(c) == "process_node" for c in calls(r))]
-            if rets: sel = (n, rets[0]); break
-    gen_sel = None
-    if sel is None:
-        # idiom: first = next((n for n in nonterminals if <kind guard>), None); if first is not None: return process_node(first)
-        for c in calls(ast.Module(body=branch.body, type_ignores=[])):
-            if callee_name(c) == "next" and c.args and isinstance(c.args[0], ast.GeneratorExp) and len(c.args[0].generators) == 1:
-                par = getattr(c, "_parent", None)
-                if isinstance(par, ast.Assign) and isinstance(par.targets[0], ast.Name):
-                    v = par.targets[0].id
-                    rets = [r for r in ast.walk(ast.Module(body=branch.body, type_ignores=[])) if isinstance(r, ast.Return) and r.value is not None and any(callee_name(k) == "process_node" and k.args and ast.unparse(k.args[0]) == v for k in calls(r))]
-                    if rets: gen_sel = (c.args[0], rets[0]); break
-    if sel is None and gen_sel is None: raise AnalysisError("selection loop of the abstract-rule branch not found (unsupported idiom)")
-    if sel is not None:
-        loop, ret = sel
-        lv = {x.id for x in ast.walk(loop.target) if isinstance(x, ast.Name)}
-        gs = [(g, pol) for g, pol in fi.guards(ret) if any(isinstance(x, ast.Name) and x.id in lv for x in ast.walk(g))]
-    else:
-        gexp, ret = gen_sel
-        lv = {x.id for x in ast.walk(gexp.generators[0].target) if isinstance(x, ast.Name)}
-        gs = [(g, True) for g in gexp.generators[0].ifs]
-    def subject(e):
-        u = ast.unparse(fi.expand(e, at=ret)).replace(" ", "")
-        return u.endswith("._tx_type") and any(u.startswith(v + ".") for v in lv)
-    chosen = set(); unsupported = None
-    for k in KINDS:
-        try:
-            if all(_eval_kind_guard(g, k, subject) == pol for g, pol in gs): chosen.add(k)
-        except _NotKind as e: unsupported = str(e)
-    inst += 1
-    if unsupported is not None:
-        # a guard that is not a comparison of the referenced rule's kind (e.g. a comparison of a class object with a kind constant)
-        out.append(Finding("C03", "C03.f", M, "parse_tree_to_objgraph.process_node", " and ".join(ast.unparse(g) for g, _ in gs)[:160], "the result of an abstract rule is not selected by the kind of the referenced rule (operand %s)" % unsupported))
-        okf = False
-    else:
-        okf = chosen == {"RULE_COMMON", "RULE_ABSTRACT"}
-        if not okf:
-            out.append(Finding("C03", "C03.f", M, "parse_tree_to_objgraph.process_node", " and ".join(ast.unparse(g) for g, _ in gs)[:160] or "(no kind guard)", "an abstract rule's alternative yields the first referenced rule whose kind is in %s; documented: the first non-match rule (common or abstract)" % sorted(chosen), witness="Statement: Label Command | Command; Label: ID ':'; Command: Move | Turn;"))
-    ob("C03", "C03.f", M, "parse_tree_to_objgraph.process_node", "selection guard over kinds -> %s" % sorted(chosen), okf)
+    # C03.f (what an abstract rule yields) is decided by evaluation: C03.n (sa/rules/cpn.py)
     # ---------------- C03.g sticky change flag
     lt = load(root, L); drt = find(lt, "TextXVisitor._determine_rule_types")
     wl = next((n for n in own_nodes(drt) if isinstance(n, ast.While)), None)
